@@ -36,6 +36,9 @@ def plan(tier):
         if cfg['d'] == 2 and cfg['n_inner'] == 1 and cfg['storage'] == 'Batch' and cfg['names'] == 'str' \
                 and cfg['imputer'] in ('joint', 'default'):
             tasks.append((dict(cfg, spy=False), 6, 0, False, 2, 'exact'))
+            if cfg['imputer'] == 'joint' and cfg['model'] == 'scalar':
+                for st in ('Interval', 'Sequence', 'Geometric'):
+                    tasks.append((dict(cfg, spy=False, storage=st), 6, 0, False, 2, 'exact'))
     # library defaults and remaining storages / n_inner=3 (not in the quick product)
     for dyn in (False, True):
         for d in (1, 2, 3):
@@ -74,10 +77,18 @@ def make_driver(cfg, T, asize, options, mode):
         ex = h.expl
         seen = []
         maxloss = 1.0
-        for t in range(T):
-            x, y = letters[run.choose(len(letters), 'obs', None, 0)]
+        import copy as _copy
+        fork = None
+        for t in range(T + 1):
+            if t == T - 1 and mode == 'exact':
+                fork = _copy.deepcopy(ex)        # a checkpoint of the explainer, taken before the original moves on
+            if t == T:
+                if fork is None:
+                    break
+                ex = fork                        # ... and used afterwards: it must be independent of the original
+            x, y = letters[run.choose(len(letters), 'obs', None, 0)] if t < T else letters[-1]
             kw = {}
-            if options and (t >= 1 or cfg['imputer'] == 'default'):
+            if t < T and options and (t >= 1 or cfg['imputer'] == 'default'):
                 o = run.choose(3, 'opt', None, 1)
                 if o == 1:
                     kw['n_inner_samples'] = cfg['n_inner'] + 1
@@ -88,7 +99,8 @@ def make_driver(cfg, T, asize, options, mode):
             imp = ex.importance_values
             total = sum(imp.values()) if imp else 0
             marg, model, expl = ex.marginal_loss, ex.model_loss, ex.explained_loss
-            where = f"IncrementalSage[{sc.cfg_desc(cfg)}] after call {t + 1} (options {kw})"
+            where = f"IncrementalSage[{sc.cfg_desc(cfg)}] after call {t + 1} (options {kw})" + \
+                (" on a deep copy taken before the original explainer processed one more observation" if t == T else "")
             if mode == 'exact':
                 ok_pub = sc.close(expl, F(total), 4) if not isinstance(expl, F) else expl == total
                 scale = max(1, abs(F(marg)) + abs(F(model)))
